@@ -89,9 +89,13 @@ def call(op: str, a: dict) -> dict:
             vals = vals * f
             if bind.get_layout() == "swapped" and a["red"] in ("sum", "max", "min") and vals.size and \
                     np.all(vals == np.round(vals)) and np.max(np.abs(vals)) * 40 <= 127:
-                # the same request with values stored in 8 bits (each fits, a sum of duplicates need not)
-                f = 40.0
-                vals = (vals * 40).astype(np.int8)
+                if a["red"] == "sum" and np.all((vals == 0) | (vals == 1)) and len(a["subs"]) % 2 == 1:
+                    # indicator values stored as booleans: their sum over duplicates is a count
+                    vals = vals.astype(bool)
+                else:
+                    # the same request with values stored in 8 bits (each fits, a sum of duplicates need not)
+                    f = 40.0
+                    vals = (vals * 40).astype(np.int8)
             shape = tuple(a["shape"])
             stretch = bind.get_layout() == "default" and len(shape) >= 2 and len(a["subs"]) > 0
             if stretch:
@@ -222,7 +226,8 @@ def main(tier: str) -> int:
         # the aggregation enumeration is large: keep every 2nd stimulus in the quick tier
         agg = [s for s in stimuli if s["op"] == "aggregate"]
         rest = [s for s in stimuli if s["op"] != "aggregate"]
-        stimuli = rest + agg[:: 3]
+        # (and every sum over indicator values, which are also presented as booleans)
+        stimuli = rest + [s for i, s in enumerate(agg) if i % 3 == 0 or (s["a"]["red"] == "sum" and set(s["a"]["vals"]) <= {0, 1})]
     behaviours = [{"ev": stimuli[i:i + 40]} for i in range(0, len(stimuli), 40)]
     from collections import Counter
     out.notes["calls_per_op"] = dict(Counter(s["op"] for s in stimuli))
@@ -232,7 +237,7 @@ def main(tier: str) -> int:
                 "element vectors shorter, equal, longer than the shape; teneye for orders 2, 4 (sizes 1-3) and 6 (sizes 1-2) checked "
                 "by its defining property on all vectors over {-1,0,1,2}; ktensor.from_function; the aggregating "
                 "constructor on every subscript list with <= 4 rows over a 2x2 (2x1x2) grid with arbitrary "
-                "multiplicities in every order x 3 value vectors x 4 reducers; sptenrand / sptensor.from_function for "
+                "multiplicities in every order x 4 value vectors x 4 reducers; sptenrand / sptensor.from_function for "
                 "every count 1..size-1 and 7 densities x 3 seeds (reproducibility = two calls after the same seed)")
     out.exhaustive = True
     out.trusted = ["projection and labelled value functions in harness/c20.py", "TLC"]
